@@ -500,6 +500,9 @@ func c17Run(c *fw.Case, env *fw.Env) *fw.Obs {
 	if p.Entry == "receive" {
 		return c17Receive(c, env, o, &p)
 	}
+	if strings.HasPrefix(p.Entry, "reply-") {
+		return c17Reply(c, env, o, &p)
+	}
 	rng := c.Rand()
 	entry := c17Entries[p.Entry]
 	if entry == nil {
@@ -894,6 +897,15 @@ func init() {
 						}
 						l.Add(e, c17Params{Entry: e, Corpus: corpus, Mut: m, Budget: b}, 0)
 					}
+				}
+			}
+			// replies of a remote, one reply of a recorded exchange replaced by a mutant
+			for corpus := 0; corpus < l.N(2, 4); corpus++ {
+				for _, m := range []string{"json", "bytes", "ctype"} {
+					l.Add("reply-refs", c17Params{Entry: "reply-refs", Corpus: corpus, Mut: m, Budget: budget / 2}, 0)
+					l.Add("reply-fetch", c17Params{Entry: "reply-fetch", Corpus: corpus, Mut: m, Budget: budget}, 0)
+					l.Add("reply-cli-fetch", c17Params{Entry: "reply-cli-fetch", Corpus: corpus, Mut: m, Budget: l.N(60, 1500)}, 0)
+					l.Add("reply-cli-push", c17Params{Entry: "reply-cli-push", Corpus: corpus, Mut: m, Budget: l.N(60, 1500)}, 0)
 				}
 			}
 			for i := 0; i < l.N(2, 8); i++ {
